@@ -50,7 +50,8 @@ def cases(rng, tier):
     for b in ([0, 0, 0, 0], [255, 255, 255, 255], [1, 0, 0, 0], [0, 1, 0, 0], [0, 0, 1, 0], [0, 0, 0, 1], [0, 128, 0, 0]):
         cs.append(C.Case("pid_deser", b))
     # packets
-    for ln in list(range(0, 71)) + [255, 256, 1024, 1500]:
+    # lengths around every power of two up to 2^17 (a length narrowed to u8/u16 wraps there)
+    for ln in list(range(0, 71)) + [255, 256, 257, 1024, 1500, 4095, 4096, 65531, 65532, 65535, 65536, 65537, 65540, 70000, 131071, 131072, 131076]:
         sbn, e = rng.below(256), rng.choice(es)
         data = list(rng.bytes(ln))
         cs.append(C.Case("pkt_ser", [sbn, e] + data))
@@ -132,6 +133,10 @@ def evaluate(cases, rep, tier):
             "stats": {"evaluations": len(cases) * 4 + len(sc), "distinct_nontrivial": nontriv,
                       "samples": [cases[3].impl_line() + " -> " + impl[3], next(c.impl_line() + " -> " + i for c, i in zip(cases, impl) if c.fn == "oti_deser" and sum(c.args) > 300)],
                       "input_distribution": kinds}}
+
+
+def kernel_ok(c):
+    return len(c.args) < 300
 
 
 def search(rng, rep, tier, disagreements):
